@@ -228,13 +228,44 @@ func TestC04_Homomorphism(t *testing.T) {
 func TestC04_NonG1(t *testing.T) {
 	gen.Run(t, "C04", func(g *gen.G) {
 		n := g.Int("n", 1, 6)
+		long := g.Chance("longList", 1, 3)
+		if long { // bulk summation routines switch algorithm with the number of operands
+			n = []int{15, 16, 17, 18, 31, 32, 33, 34, 63, 64, 65}[g.Pick("nLong", 11)]
+			g.Class("nonG1:longList")
+		}
 		sum := bls381.G1Infinity()
 		sigs := make([]crypto.Signature, n)
 		nonG1 := 0
 		for i := range sigs {
 			var pt bls381.G1
 			seed := g.Bytes(fmt.Sprintf("seed%d", i), 1, 3)
-			switch g.Int("ptKind", 0, 5) {
+			kind := g.Int("ptKind", 0, 5)
+			if long {
+				// cheap operands for long lists: the special points next to each other are what matters
+				switch g.Int("ptKindLong", 0, 9) {
+				case 0, 1:
+					kind = 2
+				case 2, 3:
+					kind = 3
+				case 4:
+					kind = 4
+				case 5:
+					kind = 6
+				case 6:
+					kind = 0
+				default:
+					kind = 7
+				}
+			}
+			switch kind {
+			case 6: // the previous operand again (doubling inside the sum)
+				if i > 0 {
+					pt, _ = bls381.G1Decompress(sigs[i-1])
+				} else {
+					pt = bls381.G1Generator()
+				}
+			case 7:
+				pt = bls381.G1Generator().Mul(big.NewInt(int64(1 + g.Int("smallMultiple", 0, 50))))
 			case 0:
 				pt = bls381.G1CurvePoint(seed)
 				nonG1++
